@@ -107,6 +107,24 @@ CHECKS["C07"] = dict(
          "inverse only (it reports no log-det).",
     design="§6 C07")
 
+CHECKS["C12"] = dict(
+    technique="Coq-verified forward-mode AD: dual numbers over intervals proved (Coquelicot + Interval) to enclose value and derivative of every Num operation; Paramcoq free theorems lift it to whole models; correspondence autograd vs proved enclosures + autograd vs finite differences for every density/parameter on the implementation",
+    text="Theorem C12_dual_numbers_enclose_derivatives (NumFD_R): for every x0 the dual-number instance is related to "
+         "the pointwise real-function instance by 'value enclosed, derivative enclosed or NaN (no claim at possible "
+         "zero divisors, non-positive ln/sqrt arguments, ties of max)'; by parametricity C12_loglik_gradient, "
+         "C12_height_jacobian_gradient, C12_site_rates_gradient: the dual run of those model terms encloses the "
+         "derivative of their real-valued reading. That PyTorch's autograd returns this derivative is decided by "
+         "correspondence (autograd inside the proved enclosure, relative 1e-7) for the tree likelihood w.r.t. branch "
+         "lengths, the node-height log-Jacobian w.r.t. ratios/root height and Weibull rates w.r.t. shape; for all other "
+         "densities (coalescents, GMRF, CTMC scale, torch priors, joint) the property is evaluated directly on the "
+         "implementation: autograd vs Richardson finite differences for every parameter coordinate, missing or zero "
+         "gradients of influential parameters reported.",
+    note="Trusted: Coq kernel; models as in C01/C05/C06; dP/dt oracle (autograd of p_t validated by central differences); "
+         "PyTorch autograd is the thing under test, not trusted; finite differences are a numerical reference with an "
+         "adaptive tolerance (implementation side only). Coalescent/BDSK/GMRF derivative enclosures are not yet "
+         "instantiated (their models exist in other property files): implementation-side check only — partial.",
+    design="§6 C12")
+
 PENDING_REASON = "check not built yet in this session (build order in DESIGN.md §9); will be claimed once its theorem file and correspondence run clean"
 
 
